@@ -227,7 +227,7 @@ def items_in(src, toks, lo, hi, any_depth=False):
             # exclude: `impl Trait` in type position, `for` etc. Require that
             # previous token is an item boundary or a modifier.
             ok_prev = (prev is None or (prev.kind == 'punct' and prev.text in ('}', ';', ']', '{', ')'))
-                       or (prev.kind == 'id' and prev.text in MODIFIERS))
+                       or (prev.kind == 'id' and prev.text in MODIFIERS + ('const',)))
             if t.text == 'fn' and prev is not None and prev.kind == 'str':
                 ok_prev = True  # extern "C" fn
             if prev is not None and prev.kind == 'punct' and prev.text == ')':
